@@ -714,6 +714,7 @@ package dials
 //@      && (forall k ptrKey :: {mget(d.mapMap, k)} mhas(d.mapMap, k) ==> valid(mget(d.mapMap, k)) && vtype(mget(d.mapMap, k)) == k.typ)
 //@ macro wfCopier(d *deepCopier) bool = d != nil && d.ptrMap != nil && d.mapMap != nil && d.ptrMap != d.mapMap && allocT(d) < clock && memoOK(d)
 //@ macro young(d *deepCopier, r Ref) bool = allocT(r) >= allocT(d)
+//@ macro mayHoldRefs(t RType) bool = kind(t) == Ptr || kind(t) == Map || kind(t) == Slice || kind(t) == Interface || kind(t) == Struct || kind(t) == Array
 // where deepCopy may write: a settable location in an object the copier made, or (maps, slices) a referent the copier made
 //@ macro writable(d *deepCopier, out Val) bool = valid(out) && young(d, vroot(out)) && allocT(vroot(out)) < clock && vroot(out) != nil
 //@      && (canSet(out) || (kind(vtype(out)) == Slice && !visnil(out) && young(d, vptr(out)) && allocT(vptr(out)) < clock && vptr(out) != nil))
@@ -772,6 +773,8 @@ package dials
 //@     invariant C02_objects_older_than_the_copier_are_never_written: olderThanCopierUntouched(d, old(rh))
 //@     invariant C02_writes_stay_below_the_destination: writesStayBelow(out, old(rh), old(clock))
 //@     invariant C03_memo_only_grows: memoRoom(d) <= old(memoRoom(d)) && rec_registerPair_cnt >= old(rec_registerPair_cnt)
+//@     iter_ensures C02_every_exported_field_is_deep_copied: isExported(fName(vtype(in), old(i))) ==> rec_registerPair_cnt > old(rec_registerPair_cnt)
+//@        && rec_registerPair_arg1[old(rec_registerPair_cnt)] == vField(in, old(i)) && rec_registerPair_arg2[old(rec_registerPair_cnt)] == vField(out, old(i))
 //@   ensures memoOK(d) && oldHeap(d)
 //@   ensures C02_objects_older_than_the_copier_are_never_written: olderThanCopierUntouched(d, old(rh))
 //@   ensures C02_writes_stay_below_the_destination: writesStayBelow(out, old(rh), old(clock))
@@ -790,6 +793,8 @@ package dials
 //@   ensures C02_objects_older_than_the_copier_are_never_written: olderThanCopierUntouched(d, old(rh))
 //@   ensures C02_writes_stay_below_the_destination: writesStayBelow(out, old(rh), old(clock))
 //@   ensures C03_memo_only_grows: memoRoom(d) <= old(memoRoom(d)) && rec_registerPair_cnt >= old(rec_registerPair_cnt)
+//@   ensures C02_a_newly_memoized_pointer_has_its_pointee_deep_copied: memoRoom(d) < old(memoRoom(d)) ==> rec_registerPair_cnt > old(rec_registerPair_cnt)
+//@        && rec_registerPair_arg1[old(rec_registerPair_cnt)] == vElemH(old(rh), in)
 
 //@ func dials.(*deepCopier).deepCopyIface(d, in, out)
 //@   props C02 C03
@@ -840,6 +845,8 @@ package dials
 //@     invariant C02_objects_older_than_the_copier_are_never_written: olderThanCopierUntouched(d, old(rh))
 //@     invariant C02_writes_stay_below_the_destination: writesStayBelow(out, old(rh), old(clock))
 //@     invariant C03_memo_only_grows: memoRoom(d) <= old(memoRoom(d)) && rec_registerPair_cnt >= old(rec_registerPair_cnt)
+//@   at call out.SetMapIndex(:
+//@     assert C02_keys_and_values_that_may_hold_references_are_inserted_as_copies: (mayHoldRefs(vtype(newKey)) ==> young(d, vroot(newKey)) && canSet(newKey)) && (mayHoldRefs(vtype(newVal)) ==> young(d, vroot(newVal)) && canSet(newVal))
 //@   ensures C02_a_newly_memoized_map_has_its_own_referent: !old(visnil(in)) && canSet(out) && memoRoom(d) < old(memoRoom(d)) ==> !visnil(out) && young(d, vptr(out))
 //@   ensures memoOK(d) && oldHeap(d)
 //@   ensures C02_objects_older_than_the_copier_are_never_written: olderThanCopierUntouched(d, old(rh))
